@@ -38,6 +38,41 @@
 #include <cpuid.h>
 #endif
 
+#if defined(SKINNY_C_VERIF) && SKINNY_X86_CPUID
+/* Verification hook: when _skinny_verif_cpuid is set, the probes below talk
+   to a modelled processor instead of the real one.  subleaf_valid is zero
+   for plain __cpuid(), whose ECX input is unspecified.  When the pointers
+   are null the macros expand to the same instructions as <cpuid.h>. */
+void (*_skinny_verif_cpuid)
+    (uint32_t leaf, uint32_t subleaf, int subleaf_valid, uint32_t regs[4]) = 0;
+uint32_t (*_skinny_verif_xcr0)(void) = 0;
+#undef __cpuid
+#define __cpuid(level, a, b, c, d) \
+    do { \
+        if (_skinny_verif_cpuid) { \
+            uint32_t regs_[4]; \
+            (*_skinny_verif_cpuid)((level), 0, 0, regs_); \
+            (a) = regs_[0]; (b) = regs_[1]; (c) = regs_[2]; (d) = regs_[3]; \
+        } else { \
+            __asm__ __volatile__ ("cpuid" \
+                : "=a"(a), "=b"(b), "=c"(c), "=d"(d) : "0"(level)); \
+        } \
+    } while (0)
+#undef __cpuid_count
+#define __cpuid_count(level, count, a, b, c, d) \
+    do { \
+        if (_skinny_verif_cpuid) { \
+            uint32_t regs_[4]; \
+            (*_skinny_verif_cpuid)((level), (count), 1, regs_); \
+            (a) = regs_[0]; (b) = regs_[1]; (c) = regs_[2]; (d) = regs_[3]; \
+        } else { \
+            __asm__ __volatile__ ("cpuid" \
+                : "=a"(a), "=b"(b), "=c"(c), "=d"(d) \
+                : "0"(level), "2"(count)); \
+        } \
+    } while (0)
+#endif
+
 #ifdef SKINNY_C_VERIF
 /* Verification hook: widest vector back end that the probes may report.
    It can only turn a detected back end off, never on. */
@@ -79,6 +114,10 @@ static uint32_t skinny_read_xcr0(void)
 {
     uint32_t eax;
     uint32_t edx;
+#ifdef SKINNY_C_VERIF
+    if (_skinny_verif_xcr0)
+        return (*_skinny_verif_xcr0)();
+#endif
     __asm__ __volatile__ (".byte 0x0f, 0x01, 0xd0" /* xgetbv */
                           : "=a"(eax), "=d"(edx) : "c"(0));
     return eax;
